@@ -429,6 +429,11 @@ func (c *wsConn) call(rid, action string, params interface{}, cb func(result jso
 	}
 
 	sub.CanCall(action, func(err error) {
+		// The connection may have been disposed while awaiting the access
+		// response. Then no request should be made on its behalf.
+		if c.disposing {
+			return
+		}
 		if err != nil {
 			cb(nil, "", err)
 			return
@@ -752,8 +757,9 @@ func (c *wsConn) ExpandCID(rid string) string {
 
 func (c *wsConn) TokenReset(tids map[string]bool, subject string) {
 	c.Enqueue(func() {
-		// Exit if no token ID is set, or if it isn't affected.
-		if c.tid == "" || !tids[c.tid] {
+		// Exit if the connection is disposed, no token ID is set, or if it
+		// isn't affected.
+		if c.disposing || c.tid == "" || !tids[c.tid] {
 			return
 		}
 		c.serv.cache.CustomAuth(c, subject, "", c.token, nil, func(_ json.RawMessage, _ string, _ *codec.Meta, err error) {
